@@ -13,7 +13,7 @@ MANIFEST = {
             'of up to 4 (thorough 8) operations from an alphabet of 14 (plain calculation; overrides of a constant with a number/text/error, of a formula cell, '
             'of a defined name, of a 2-cell range, of two nodes at once; restricted outputs; compile+call; to_dict; write; deepcopy-and-continue) is replayed on a freshly '
             'built model; states are deduplicated by a deep fingerprint of all reachable mutable state; on every transition the result must equal the same operation on a '
-            'fresh model and the reference evaluation of the workbook with the overrides as constants. A fourth workbook holds a 2x3 block read as a whole and cell by cell and a sparse range with unpopulated cells; a fifth an array-formula block partly overlapped by an overridden range and overridden element by element.',
+            'fresh model and the reference evaluation of the workbook with the overrides as constants. A fourth workbook holds a 2x3 block read as a whole and cell by cell and a sparse range with unpopulated cells; a fifth an array-formula block partly overlapped by an overridden range and overridden element by element.' ' Later additions: model e (array block beside readers), restricted outputs with overrides of unpopulated cells, a raw model with array constants holding empty text (judged against a fresh model), model c loaded from files in both load orders, a raw circular model with hand-written expectations; readers of a partly overridden array block are not judged.',
     'note': 'Trusted: ref/wbeval.py for the vocabulary used by the three models; the fingerprint is over-fine (extra states only). write()/to_dict() appear as preceding operations only.',
 }
 RULE = 'state = fingerprint of the model after a history; transition = one more operation, replayed from a fresh model; non-trivial = every executed transition; distinct = history key'
